@@ -392,6 +392,11 @@ func c19Fixed() []c19Case {
 	cs = append(cs, c19Case{Name: "upper-ext-in-place", Files: upper, Inv: cliInv{Inputs: []string{"w/"}, Recursive: true, Output: "w/"}})
 	cs = append(cs, c19Case{Name: "upper-ext-named", Files: upper, Inv: cliInv{Inputs: []string{"w/LEGACY.JS", "w/ok.js"}, Output: "out/"}})
 	cs = append(cs, c19Case{Name: "upper-ext-typed", Files: upper, Inv: cliInv{Inputs: []string{"w/"}, Recursive: true, Type: "js", Match: []string{"*.JS"}, Output: "out/"}})
+	emptyMid := []treeFile{{Path: "a.js", Data: js}, {Path: "empty.js", Data: ""}, {Path: "c.js", Data: "let z = 3 ;\n"}, {Path: "e.css", Data: ""}, {Path: "f.css", Data: css}}
+	cs = append(cs, c19Case{Name: "bundle-empty-middle", Files: emptyMid, Inv: cliInv{Inputs: []string{"a.js", "empty.js", "c.js"}, Bundle: true, Output: "out.js"}})
+	cs = append(cs, c19Case{Name: "bundle-empty-middle-onto-input", Files: emptyMid, Inv: cliInv{Inputs: []string{"a.js", "empty.js", "c.js"}, Bundle: true, Output: "c.js"}})
+	cs = append(cs, c19Case{Name: "bundle-empty-first", Files: emptyMid, Inv: cliInv{Inputs: []string{"empty.js", "a.js", "c.js"}, Bundle: true}})
+	cs = append(cs, c19Case{Name: "bundle-empty-css", Files: emptyMid, Inv: cliInv{Inputs: []string{"f.css", "e.css", "f.css"}, Bundle: true, Output: "o.css"}})
 	add("many-to-stdout-rejected", cliInv{Inputs: []string{"src/app.js", "src/app.css"}})
 	add("flags-js", cliInv{Inputs: []string{"src/app.js"}, Flags: []string{"--js-keep-var-names"}})
 	add("flags-html", cliInv{Inputs: []string{"src/app.html"}, Flags: []string{"--html-keep-document-tags", "--html-keep-end-tags"}})
